@@ -1417,6 +1417,10 @@ def gen_recv_cert():
     const("fragGuardUnit", _int(_one(r"if header\.fragment_offset as u32 \* (\w+) \+ data_octets > u16::MAX as u32 - header_octets \{", src, "Ipv4::demux fragment guard", p)),
           "`header.fragment_offset as u32 * N` (fragment guard)")
     _one(r"tracing::error!\(\"Fragment extends beyond the maximum datagram length\"\);\s*Err\(DemuxError::(Header)\)\?\s*\}", src, "Ipv4::demux fragment guard result", p)
+    # fix F-C14-S3: a frame shorter than the total length is dropped, a longer one is cut there, before
+    # the header goes into the control block and anything is handed up
+    _one(r"if message\.len\(\) (<) header\.total_length as usize \{\s*tracing::error!\(\"[^\"]*\"\);\s*Err\(DemuxError::Header\)\?\s*\}", src, "Ipv4::demux frame shorter than the total length -> DemuxError::Header", p)
+    _one(r"message\.(slice)\(\.\.header\.total_length as usize\);\s*control\.insert\(header\);\s*message\.remove_front\(header\.ihl as usize \* \w+\);", src, "Ipv4::demux cuts the frame at the total length", p)
     _one(r"let pci_demux_info = control\s*\.get::<pci::DemuxInfo>\(\)\s*\.ok_or\(DemuxError::(MissingContext)\)\?;", src, "Ipv4::demux link context", p)
     # ---- pci_session.rs: the link context is inserted before any protocol is called
     p = os.path.join(P, "pci", "pci_session.rs")
